@@ -145,6 +145,17 @@ CHECKS = {
              "attribute on multi-field structs) are enumerated and reported in the evidence but not asserted.",
         technique="TLA+ spec (Delegate) + TLC exhaustive attribute assignments, replay as real structs (address identity)",
         design="4 (C14)"),
+    "C08": dict(
+        text="TLC model-checks Conv.tla: the documented impl set of derive(From) vs the transcription of from.rs' "
+             "has_explicit_from (computed over all variants), the component order of Into's tuple conversion and the "
+             "Into-after-From identity; every case is compiled with the real derives on types whose fields share ONE tagged type "
+             "(a permutation would still compile): conversions by value, reference forms by address and write-back, "
+             "typed/forwarded conversions through instrumented From impls counting exactly one call per field, presence and "
+             "absence of impls by trait-resolution probes, round trip, Constructor::new for every arity (also in a const).",
+        note="field-level `#[into(types)]` forms and generic parameters are not enumerated; From<()> of several field-less "
+             "variants is only probed when unambiguous.",
+        technique="TLA+ spec (Conv) + TLC exhaustive attribute placements, replay as real types (values, addresses, impl probes)",
+        design="4 (C08)"),
 }
 
 NOT_YET = {}
